@@ -113,6 +113,11 @@ def run(ctx, rep):
                     if isinstance(x.func, ast.Name) and x.func.id == "getattr" and len(x.args) == 3 and \
                             isinstance(x.args[1], ast.Constant) and all(isinstance(a, (ast.Name, ast.Constant)) for a in x.args):
                         continue   # getattr with a default cannot raise AttributeError
+                    if isinstance(x.func, ast.Name) and _contains_its_own_errors(prog, f, x.func.id):
+                        # a helper whose whole body sits in `try: ... except Exception: return <constant>`; its
+                        # arguments are evaluated in the handler, so they must be plain names / constants
+                        if all(isinstance(a, (ast.Name, ast.Constant)) for a in list(x.args) + [k.value for k in x.keywords]):
+                            continue
                     risky.append(utext(x))
                 elif isinstance(x, (ast.BinOp, ast.JoinedStr)) :
                     risky.append(utext(x))
@@ -242,6 +247,28 @@ def _strategy_body(ctx, rep, f, lp):
                  and g[0] not in ("market_book.status == 'CLOSED'", "self.handler_queue", "market_book.streaming_snap is False",
                                   "latency > 2", "market_is_new", "market.closed", "market.blotter.active")]
         rep.check(not extra, "R3", key(f, None, "no other condition can suppress a strategy's update"), f, pm[0], str(extra))
+
+
+def _contains_its_own_errors(prog, caller, name):
+    cands = [g for g in prog.all_functions() if g.name == name and g.cls is None and g.module is caller.module]
+    if len(cands) != 1:
+        return False
+    body = [st for st in cands[0].node.body
+            if not (isinstance(st, ast.Expr) and isinstance(st.value, ast.Constant))]
+    if len(body) != 1 or not isinstance(body[0], ast.Try) or body[0].finalbody or body[0].orelse:
+        return False
+    t = body[0]
+    catch_all = [h for h in t.handlers if h.type is None or utext(h.type) in ("Exception", "BaseException")]
+    if not catch_all or t.handlers[-1] is not catch_all[-1]:
+        return False
+    for h in t.handlers:
+        for st in h.body:
+            ok = isinstance(st, ast.Pass) or (isinstance(st, ast.Return) and (st.value is None or isinstance(st.value, ast.Constant) or (
+                isinstance(st.value, (ast.Dict, ast.List, ast.Tuple)) and not ast.dump(st.value).count("Name("))))
+            if not ok:
+                return False
+    # the function returns on every path of the try body or falls off its end (None): nothing after the try
+    return True
 
 
 def copy_discipline(ctx, rep, R):
@@ -427,6 +454,10 @@ _BF = "flumine/baseflumine.py"
 _SI = "flumine/simulation/simulation.py"
 _U = "flumine/utils.py"
 MUTANTS = [
+    dict(id="c13-ladder-rebuilt-per-order", file="flumine/markets/middleware.py", func="SimulatedMiddleware._process_simulated_orders",
+         old="                        runner_traded = _lookup[(order.selection_id, order.handicap)]\n", nth=0,
+         new="                        runner_traded = _lookup[(order.selection_id, order.handicap)]\n                        runner_traded = (runner_traded[0], dict(runner_traded[1]))\n",
+         expect=["R4"], why="each order consumes from a private copy: traded volume is counted once per order"),
     dict(id="c13-direct-strategy-call", file=_SI, func="FlumineSimulation._process_market_books",
          old="                        utils.call_strategy_error_handling(\n                            strategy.process_market_book, market, market_book\n                        )",
          new="                        strategy.process_market_book(market, market_book)", expect=["R1", "R3"],
